@@ -41,6 +41,28 @@ def feat_name(cfg):
     return f"{'o' if o else 'n'}{'u' if u else 'd'}_{k}"
 
 
+BASE = 10 ** 9
+
+
+class _Fresh:
+    """attribute values: every time one is asked for, a new object that compares equal to the stored one without being
+    it (what a parsed or computed int, float, date or string is) — `remove(x)`, `index(x)`, `x in c` go by equality"""
+
+    def __init__(self, n):
+        self.n = n
+
+    def __getitem__(self, x):
+        if not 0 <= x < self.n:
+            raise IndexError(x)
+        return int(str(BASE + x))
+
+    def __iter__(self):
+        return (self[x] for x in range(self.n))
+
+    def index(self, e):
+        return e - BASE
+
+
 class Impl:
     """Runs protocol lines on a real collection; emits the same records as the Lean driver and runs the oracle."""
 
@@ -49,14 +71,14 @@ class Impl:
         self.cfg = cfg
         self.unique = cfg[1]
         self.univ = univ
-        self.elems = list(range(univ)) if cfg[2] == 'attr' else [mm['B']() for _ in range(univ)]
+        self.elems = _Fresh(univ) if cfg[2] == 'attr' else [mm['B']() for _ in range(univ)]
         self.owner = mm['A']()
         self.c = getattr(self.owner, feat_name(cfg))
         self.shadow = []
         self.problems = []
 
     def num(self, e):
-        return self.elems.index(e) if not isinstance(e, int) else e
+        return self.elems.index(e) if not isinstance(e, int) or e >= BASE else e
 
     def observe(self):
         c = self.c
